@@ -19,7 +19,7 @@ RULE = ('cases: every grid-world shape with extents 0..N per axis (DiscreteWorld
         'is the coordinate; get_cell(x,y,z) is that very row (row label = id, pos and the distinguishing cell-component values equal '
         'to the coordinate\'s); outside coordinates raise IndexError. Non-trivial shape: >=2 cells; distinct by (world class, extents).')
 ASSUMPTIONS = ['exhaustive only for extents <= N', 'cell ids are obtained with discrete_grid_pos_to_id(x, y, width, z, height) as documented']
-FLOORS = {'quick': {'shapes': 72, 'cells_checked': 720, 'outside_probes': 2000, 'cells_rechecked_after_update': 700, 'wrapping_shapes': 100, 'cells_rechecked_after_regeneration': 500, 'shapes_with_zero_axis': 30, 'line_worlds': 2,
+FLOORS = {'quick': {'shapes': 72, 'cells_checked': 720, 'outside_probes': 2000, 'cells_rechecked_after_update': 700, 'wrapping_shapes': 100, 'big_shapes': 5, 'big_cells': 20000, 'cells_rechecked_after_regeneration': 500, 'shapes_with_zero_axis': 30, 'line_worlds': 2,
                     'grid_worlds': 8, 'reach:Environments.DiscreteWorld.get_cell': 2700, 'reach:Environments.discrete_grid_pos_to_id': 1400},
           'thorough': {'shapes': 500, 'cells_checked': 20000}}
 EXHAUSTIVE = {'quick': 'all grid shapes with extents 0..4 (125 DiscreteWorld, 4 LineWorld, 16 GridWorld) non-wrapping and wrapping, all in-range and just-outside coordinates',
@@ -40,6 +40,14 @@ def shapes(n):
         yield {'cls': 'LineWorld', 'ext': [w, 0, 0], 'wrap': True}
     for w, h in itertools.product(range(1, n + 1), repeat=2):
         yield {'cls': 'GridWorld', 'ext': [w, h, 0], 'wrap': True}
+    # scale regime: worlds with thousands of cells (not exhaustive: a fixed list of large shapes of every kind)
+    big = [('DiscreteWorld', [17, 17, 17]), ('DiscreteWorld', [0, 80, 70]), ('GridWorld', [100, 50, 0]), ('LineWorld', [5000, 0, 0]),
+           ('DiscreteWorld', [70, 0, 66])]
+    if n > 4:
+        big += [('DiscreteWorld', [33, 9, 31]), ('DiscreteWorld', [3, 70, 40]), ('GridWorld', [64, 65, 0]), ('DiscreteWorld', [0, 0, 4100]),
+                ('DiscreteWorld', [21, 20, 19]), ('GridWorld', [300, 40, 0])]
+    for cls, ext in big:
+        yield {'cls': cls, 'ext': ext, 'big': True}
 
 
 def build(case):
@@ -62,6 +70,8 @@ def code(pos):
 
 
 def run_case(ctx, case):
+    import random as _r
+    rng_ = _r.Random(str(case))
     envs, env = build(case)
     w, h, d = case['ext']
     rng_ax = [range(max(e, 1)) for e in (w, h, d)]
@@ -88,6 +98,15 @@ def run_case(ctx, case):
                 if tuple(row['pos']) != (x, y, z) or row['code'] != code((x, y, z)) or row['tag'] != f'{x}:{y}:{z}' or row.name != i:
                     raise CaseViolation(f'get_cell({x},{y},{z}) returned row {row.name} pos={row["pos"]} code={row["code"]}', shape=case)
     check(len(seen) == ncells, 'ids do not cover 0..cells-1', shape=case)
+    if case.get('big'):
+        ctx.count('big_shapes')
+        ctx.count('big_cells', ncells)
+        # after thousands of lookups the cells looked up first are looked up again (nothing else touched in between)
+        for i in list(range(0, 12)) + [ncells // 2, ncells - 1]:
+            x, y, z = seen[i]
+            row = env.get_cell(x, y, z)
+            if tuple(row['pos']) != (x, y, z) or row['code'] != code((x, y, z)) or row.name != i:
+                raise CaseViolation(f'repeated get_cell({x},{y},{z}) after {ncells} other lookups returned row {row.name} pos={row["pos"]}', shape=case)
     # models update cell values in place (env.cells[name] = ..., the documented 1-D arrays): a later lookup must show them
     env.cells['code'] = [code(p) + 7 for p in [tuple(q) for q in table.tolist()]]
     for i, (x, y, z) in seen.items():
@@ -114,7 +133,10 @@ def run_case(ctx, case):
     for k in range(3):
         others = [rng_ax[j] for j in range(3) if j != k]
         for bad in (-1, len(rng_ax[k])):
-            for o in itertools.product(*others):
+            combos = itertools.product(*others)
+            if case.get('big'):
+                combos = [tuple(rng_.choice(list(r)) for r in others) for _ in range(40)]
+            for o in combos:
                 c = list(o)
                 c.insert(k, bad)
                 expect_raises(IndexError, f'get_cell{tuple(c)} outside shape {case}', env.get_cell, *c)
